@@ -246,6 +246,10 @@ func readBatchFromIO(data io.ReadCloser, batches chan<- edge.BufferedBatchMessag
 		}
 		batches <- b
 	}
+	// More is also false when reading failed, tell the end of the recording from a read error.
+	if _, err := dec.Decode(); err != nil && err != io.EOF {
+		return err
+	}
 	return nil
 }
 
